@@ -467,6 +467,7 @@ theorem VaultReg.create_ok {cfg : Cfg} {r r' : VaultReg} {i : Nat} (h : VaultReg
   unfold VaultReg.create at h
   obtain ⟨a, ha, h⟩ := Res.bind_eq_ok.mp h
   obtain ⟨_, hnone, h⟩ := Res.bind_eq_ok.mp h
+  obtain ⟨_, _, h⟩ := Res.bind_eq_ok.mp h
   obtain ⟨_, hsym, h⟩ := Res.bind_eq_ok.mp h
   have hnone' : regLookup a.ref r.reg = none := by
     have := guardErr_eq_ok.mp hnone
@@ -524,6 +525,7 @@ theorem IncReg.create_ok {cfg : Cfg} {r r' : IncReg} {i : Nat} (h : IncReg.creat
   have hnone' : regLookup a.raw r.reg = none := by
     have := guardErr_eq_ok.mp hnone
     simpa using this
+  obtain ⟨_, _, h⟩ := Res.bind_eq_ok.mp h
   refine ⟨a, ha, hnone', ?_⟩
   simp only [List.getElem?_concat_length] at h
   obtain ⟨la, hla, h⟩ := Res.bind_eq_ok.mp h
